@@ -4,6 +4,7 @@ import (
 	"fmt"
 	"go/token"
 	"go/types"
+	"os"
 	"sort"
 	"strings"
 
@@ -134,31 +135,34 @@ type preReq struct {
 }
 
 var calleePre = map[string]preReq{
-	"strings.Repeat":                {1, "nonneg"},
-	"bytes.Repeat":                  {1, "nonneg"},
+	"strings.Repeat":                        {1, "nonneg"},
+	"bytes.Repeat":                          {1, "nonneg"},
 	"(*gopkg.in/yaml.v3.Encoder).SetIndent": {1, "nonneg"},
-	"strconv.FormatInt":             {1, "base36"},
-	"strconv.FormatUint":            {1, "base36"},
-	"strconv.AppendInt":             {2, "base36"},
-	"strconv.AppendUint":            {2, "base36"},
-	"(*math/big.Int).Text":          {1, "base62"},
-	"(*math/big.Int).Append":        {2, "base62"},
+	"strconv.FormatInt":                     {1, "base36"},
+	"strconv.FormatUint":                    {1, "base36"},
+	"strconv.AppendInt":                     {2, "base36"},
+	"strconv.AppendUint":                    {2, "base36"},
+	"(*math/big.Int).Text":                  {1, "base62"},
+	"(*math/big.Int).Append":                {2, "base62"},
+	// reflect-based encoders that call Type() on the zero reflect.Value of a nil interface
+	"(*github.com/BurntSushi/toml.Encoder).Encode": {1, "nonnil"},
 }
 
 // c13Exceptions: fault sites whose precondition the engine cannot prove but reading does. key = function|class|ordinal.
 var c13Exceptions = map[string]string{
-	"internal/mathx.PadFormatBigInt|base:Text|1":           "previewValue passes DisplayFormat.FormatBase(): DisplayFormat is only ever assigned the four Number* constants by the scalar mappers, for which FormatBase returns 10/2/8/16 (C10.tables); the 0 default is unreachable",
-	"internal/mathx.PadFormatInt[int64]|base:FormatInt|1":  "see PadFormatBigInt: base is DisplayFormat.FormatBase() of a Number* constant, or a clamped Options base",
+	"internal/mathx.PadFormatBigInt|base:Text|1":             "previewValue passes DisplayFormat.FormatBase(): DisplayFormat is only ever assigned the four Number* constants by the scalar mappers, for which FormatBase returns 10/2/8/16 (C10.tables); the 0 default is unreachable",
+	"internal/mathx.PadFormatInt[int64]|base:FormatInt|1":    "see PadFormatBigInt: base is DisplayFormat.FormatBase() of a Number* constant, or a clamped Options base",
 	"internal/mathx.PadFormatUint[uint64]|base:FormatUint|1": "see PadFormatBigInt: base is DisplayFormat.FormatBase() of a Number* constant, or a clamped Options base",
-	"(*pkg/interp.Interp).Eval|assert|1":             "internal contract: Interp.OS is always constructed with a value implementing interp.OS (type of the field)",
-	"(pkg/interp.decodeValue).JQValueHas|assert|1":   "method value of the embedded gojq.JQValue interface (compiler-generated assertion on a non-nil embedded interface set by makeDecodeValueOut)",
-	"(pkg/interp.decodeValue).JQValueKey|assert|1":   "method value of the embedded gojq.JQValue interface (see JQValueHas)",
-	"(pkg/interp.decodeValue).JQValueKey|assert|2":   "method value of the embedded gojq.JQValue interface (see JQValueHas)",
-	"(pkg/interp.ArrayDecodeValue).JQValueSlice|make|1": "interpreter contract: gojq calls JQValueSlice with 0 <= start <= end <= JQValueSliceLen()",
-	"(pkg/interp.ArrayDecodeValue).JQValueSlice|make|2": "interpreter contract: gojq calls JQValueSlice with 0 <= start <= end <= JQValueSliceLen()",
+	"(*pkg/interp.Interp).Eval|assert|1":                     "internal contract: Interp.OS is always constructed with a value implementing interp.OS (type of the field)",
+	"(pkg/interp.decodeValue).JQValueHas|assert|1":           "method value of the embedded gojq.JQValue interface (compiler-generated assertion on a non-nil embedded interface set by makeDecodeValueOut)",
+	"(pkg/interp.decodeValue).JQValueKey|assert|1":           "method value of the embedded gojq.JQValue interface (see JQValueHas)",
+	"(pkg/interp.decodeValue).JQValueKey|assert|2":           "method value of the embedded gojq.JQValue interface (see JQValueHas)",
+	"(pkg/interp.ArrayDecodeValue).JQValueSlice|make|1":      "interpreter contract: gojq calls JQValueSlice with 0 <= start <= end <= JQValueSliceLen()",
+	"(pkg/interp.ArrayDecodeValue).JQValueSlice|make|2":      "interpreter contract: gojq calls JQValueSlice with 0 <= start <= end <= JQValueSliceLen()",
 }
 
 func runC13(r *fw.Run, p *fw.Program) {
+	c13RetireStaleControls()
 	roots, scope := c13Scope(p)
 	rr := r.Rule("C13.roots", "Go functions registered into jq (RegisterFunc0-2/RegisterIter0-2) and the JQValue methods of fq's value types are enumerated as totality roots", 50)
 	nReg := 0
@@ -180,11 +184,15 @@ func runC13(r *fw.Run, p *fw.Program) {
 	c13ErrVal(r, p)
 	c13NilRet(r, p, scope)
 	c13JQType(r, p, scope)
+	c13Idx(r, p, scope)
 	c13ExploreIdx(p, scope)
+	if os.Getenv("C13_DUMP") != "" {
+		r.C13Dump(os.Stdout)
+	}
 }
 
 func c13Pre(r *fw.Run, p *fw.Program, scope []*ssa.Function) {
-	ru := r.Rule("C13.pre", "in code reachable from jq-callable Go functions, every fault site with a non-constant operand (integer / and %, shift by a signed count, make length, Repeat/SetIndent count, number base, constant index into an option string, unchecked type assertion) has its precondition established by a dominating guard, clamp, unsigned type, field invariant or interval (lifted to every call site for parameters)", 70)
+	ru := r.Rule("C13.pre", "in code reachable from jq-callable Go functions, every fault site with a non-constant operand (integer / and %, shift by a signed count, make length, Repeat/SetIndent count, number base, constant index into an option string, unchecked type assertion, interface value handed to a reflect-based encoder that faults on nil) has its precondition established by a dominating guard, clamp, unsigned type, field invariant or interval (lifted to every call site for parameters)", 75)
 	for _, fn := range scope {
 		if fn.TypeParams().Len() > 0 && len(fn.TypeArgs()) == 0 {
 			continue
@@ -275,6 +283,33 @@ func c13Pre(r *fw.Run, p *fw.Program, scope []*ssa.Function) {
 				}
 				a := args[pre.arg]
 				switch pre.kind {
+				case "nonnil":
+					if _, isIface := a.Type().Underlying().(*types.Interface); !isIface {
+						return
+					}
+					if mi, ok := a.(*ssa.MakeInterface); ok {
+						if _, isPtr := mi.X.Type().Underlying().(*types.Pointer); !isPtr {
+							return // a boxed non-pointer value is never a nil interface
+						}
+					}
+					okNil := false
+					for _, g := range fw.Guards(x.Block()) {
+						g = g.Normalize()
+						bo, ok := g.Cond.(*ssa.BinOp)
+						if !ok || (bo.Op != token.NEQ && bo.Op != token.EQL) {
+							continue
+						}
+						var other ssa.Value
+						if bo.X == a {
+							other = bo.Y
+						} else if bo.Y == a {
+							other = bo.X
+						}
+						if c, ok := other.(*ssa.Const); ok && c.IsNil() && (bo.Op == token.NEQ) == g.True {
+							okNil = true
+						}
+					}
+					report("nonnil:"+callee.Name(), x, okNil, "value tested against nil first", name+" is handed an interface value that is not tested against nil: the encoder reflects on it and a nil value (jq null, a decode value that is null) is an uncatchable reflect panic")
 				case "nonneg":
 					if c, ok := a.(*ssa.Const); ok && c.Value != nil && c.Int64() >= 0 {
 						return
@@ -657,20 +692,43 @@ func lenProved(env *fw.IntervalEnv, s ssa.Value, b *ssa.BasicBlock, k int64) boo
 
 // c13PanicExceptions: explicit panics in jq-callable code. key = function|type|message
 var c13PanicExceptions = map[string]string{
-	"format/csv.toCSV|string|not array":             "unreachable: NormalizeToStrings of a []any returns a []any",
-	"format/text.init#2$10|string|not map":          "unreachable: NormalizeToStrings of a map[string]any returns a map[string]any",
-	"format/text.init#2$8|string|not map":           "unreachable: NormalizeToStrings of a map[string]any returns a map[string]any",
-	"internal/mapstruct.ToMap|string|not map":       "unreachable: callers pass struct values, which mapstructure decodes into a map",
+	"format/csv.toCSV|string|not array":       "unreachable: NormalizeToStrings of a []any returns a []any",
+	"format/text.init#2$10|string|not map":    "unreachable: NormalizeToStrings of a map[string]any returns a map[string]any",
+	"format/text.init#2$8|string|not map":     "unreachable: NormalizeToStrings of a map[string]any returns a map[string]any",
+	"internal/mapstruct.ToMap|string|not map": "unreachable: callers pass struct values, which mapstructure decodes into a map",
 	"(*internal/colorjson.Encoder).encode|string|fmt.Sprintf:unknown type and to ValueFn set: %[1]T (%[1]v)": "contract: fq always constructs the encoder with a ValueFn (interp._printColorJSON, json.toJSON); without one only gojq-normalised values are encoded",
-	"pkg/interp.decoratorFromOptions$1|string|fmt.Sprintf:unreachable %v (%T)": "unreachable default of a type switch over the gojq value kinds (argued against C08.kinds)",
-	"pkg/interp.dumpEx|string|fmt.Sprintf:unreachable vv %#+v":                  "unreachable default: decode.Value.V is *Compound or a scalar.Scalarable (C08.kinds)",
-	"pkg/interp.makeDecodeValueOut|string|fmt.Sprintf:unreachable dv %#+v":      "unreachable default: decode.Value.V is *Compound or a scalar.Scalarable (C08.kinds)",
-	"pkg/interp.makeDecodeValueOut|string|fmt.Sprintf:unreachable vv %#+v":      "unreachable default: scalar value kinds are enumerated (C08.kinds)",
-	"pkg/interp.previewValue|string|fmt.Sprintf:unreachable %v (%T)":            "unreachable default of a type switch over the gojq value kinds (argued against C08.kinds)",
+	"pkg/interp.decoratorFromOptions$1|string|fmt.Sprintf:unreachable %v (%T)":                               "unreachable default of a type switch over the gojq value kinds (argued against C08.kinds)",
+	"pkg/interp.dumpEx|string|fmt.Sprintf:unreachable vv %#+v":                                               "unreachable default: decode.Value.V is *Compound or a scalar.Scalarable (C08.kinds)",
+	"pkg/interp.makeDecodeValueOut|string|fmt.Sprintf:unreachable dv %#+v":                                   "unreachable default: decode.Value.V is *Compound or a scalar.Scalarable (C08.kinds)",
+	"pkg/interp.makeDecodeValueOut|string|fmt.Sprintf:unreachable vv %#+v":                                   "unreachable default: scalar value kinds are enumerated (C08.kinds)",
+	"pkg/interp.previewValue|string|fmt.Sprintf:unreachable %v (%T)":                                         "unreachable default of a type switch over the gojq value kinds (argued against C08.kinds)",
+}
+
+// c13KindsSwitchMissing: the jq value kinds (bool, int, float64, string, *big.Int, []any, map[string]any)
+// for which no failed type-switch arm dominates the panic.
+func c13KindsSwitchMissing(pn *ssa.Panic) []string {
+	covered := map[string]bool{}
+	for _, g := range fw.Guards(pn.Block()) {
+		g = g.Normalize()
+		ex, ok := g.Cond.(*ssa.Extract)
+		if !ok || g.True || ex.Index != 1 {
+			continue
+		}
+		if ta, ok := ex.Tuple.(*ssa.TypeAssert); ok {
+			covered[types.TypeString(ta.AssertedType, nil)] = true
+		}
+	}
+	var missing []string
+	for _, k := range []string{"bool", "int", "float64", "string", "*math/big.Int", "[]any", "map[string]any"} {
+		if !covered[k] && !covered[strings.ReplaceAll(k, "any", "interface{}")] {
+			missing = append(missing, k)
+		}
+	}
+	return missing
 }
 
 func c13Panic(r *fw.Run, p *fw.Program, scope []*ssa.Function) {
-	ru := r.Rule("C13.panic", "every explicit panic in jq-callable Go code is a classified unreachable/contract site", 10)
+	ru := r.Rule("C13.panic", "every explicit panic in jq-callable Go code is a classified unreachable/contract site; a default arm argued unreachable because the switch covers the jq value kinds is checked to have an arm for bool, int, float64, string, *big.Int, []any and map[string]any", 15)
 	for _, fn := range scope {
 		if fn.TypeParams().Len() > 0 && len(fn.TypeArgs()) == 0 {
 			continue
@@ -692,6 +750,12 @@ func c13Panic(r *fw.Run, p *fw.Program, scope []*ssa.Function) {
 				return
 			}
 			if reason, ok := c13PanicExceptions[base]; ok {
+				if strings.Contains(reason, "type switch over the gojq value kinds") {
+					if missing := c13KindsSwitchMissing(pn); len(missing) > 0 {
+						ru.Fail(key, p.Rel(pn.Pos()), "the panicking default arm of this switch over a jq value is reachable: no arm for "+strings.Join(missing, ", ")+" (every jq value kind must have an arm for the default to be unreachable)")
+						return
+					}
+				}
 				ru.Except(key, p.Rel(pn.Pos()), reason)
 				return
 			}
@@ -715,8 +779,6 @@ func c13Panic(r *fw.Run, p *fw.Program, scope []*ssa.Function) {
 		})
 	}
 }
-
-func c13Wrap(r *fw.Run, p *fw.Program) {}
 
 // castFnInstanceBad: the two panics of gojqx.CastFn[T] depend only on T: a struct T needs a
 // non-nil structFn at every call site; other T must be one of the kinds the function handles.
@@ -777,7 +839,7 @@ var c13InvExceptions = map[string]string{
 // establishes the interval; OptionsFromValue clamps each display option after the reflective
 // fill and before returning; Binary literals always set unit.
 func c13Inv(r *fw.Run, p *fw.Program) {
-	ru := r.Rule("C13.inv", "struct-field invariants that guard divisions/bases/sizes (Options.LineBytes>=1, Addrbase/Sizebase in 2..36, truncations/depth/display_bytes>=0, Binary.unit>=1, hexdump addrBase in 2..36) are established by every writer of the field", 18)
+	ru := r.Rule("C13.inv", "struct-field invariants that guard divisions/bases/sizes (Options.LineBytes>=1, Addrbase/Sizebase in 2..36, truncations/depth/display_bytes>=0, Binary.unit>=1, hexdump addrBase in 2..36) are established by every writer of the field; in OptionsFromValue every path from the reflective fill to the successful return assigns the field or passes a test that confines it to the invariant", 25)
 	for _, fn := range p.FqFunctions() {
 		if fn.TypeParams().Len() > 0 && len(fn.TypeArgs()) == 0 {
 			continue
@@ -888,10 +950,11 @@ func c13Inv(r *fw.Run, p *fw.Program) {
 					if !ok || fieldNameOf(fa.X.Type(), fa.Field) != f || structTypeShort(fa.X.Type()) != "pkg/interp.Options" {
 						return
 					}
-					if precedesOnAllPaths(fill, st) && okRet != nil && precedesOnAllPaths(st, okRet) {
-						found = true
-					}
+					_ = st
 				})
+				if okRet != nil {
+					found = c13EstablishedOnAllPaths(fn, fill, okRet, f, c13FieldFacts[k])
+				}
 				ru.Check(found, "OptionsFromValue:clamps-"+f, p.Rel(fn.Pos()), "clamped after the reflective fill, before return", "Options."+f+" is not re-assigned (clamped) after mapstruct.ToStruct filled it from the jq value and before OptionsFromValue returns")
 			}
 		}
@@ -935,6 +998,71 @@ func c13Inv(r *fw.Run, p *fw.Program) {
 			}
 		})
 	}
+}
+
+// c13EstablishedOnAllPaths: on every path from the reflective fill to the successful return of
+// OptionsFromValue the field is either assigned (each assignment is an obligation of its own) or the
+// path passes a test that confines the filled value to the invariant (`if opts.F < 1 { opts.F = 1 }`:
+// the assignment on one arm, the test on the other).
+func c13EstablishedOnAllPaths(fn *ssa.Function, fill ssa.Instruction, okRet *ssa.Return, field string, want fw.Interval) bool {
+	env := fw.NewIntervalEnv(fn) // no field invariants: the loads see the filled value
+	isFieldAddr := func(v ssa.Value) bool {
+		fa, ok := v.(*ssa.FieldAddr)
+		return ok && fieldNameOf(fa.X.Type(), fa.Field) == field && structTypeShort(fa.X.Type()) == "pkg/interp.Options"
+	}
+	var loads []*ssa.UnOp
+	fw.EachInstr(fn, func(ins ssa.Instruction) {
+		if u, ok := ins.(*ssa.UnOp); ok && u.Op == token.MUL && isFieldAddr(u.X) && precedesOnAllPaths(fill, u) {
+			loads = append(loads, u)
+		}
+	})
+	within := func(iv fw.Interval) bool {
+		if !want.LoInf && (iv.LoInf || iv.Lo < want.Lo) {
+			return false
+		}
+		if !want.HiInf && (iv.HiInf || iv.Hi > want.Hi) {
+			return false
+		}
+		return true
+	}
+	edgeEstablishes := func(pred, succ *ssa.BasicBlock) bool {
+		for _, f := range env.Poly.EdgeFacts(pred, succ) {
+			for _, l := range loads {
+				if l.Block() != pred && !l.Block().Dominates(pred) {
+					continue
+				}
+				if within(fw.BoundFromFact(f, env.Poly.Of(l))) {
+					return true
+				}
+			}
+		}
+		return false
+	}
+	visited := map[*ssa.BasicBlock]bool{}
+	var walk func(b *ssa.BasicBlock, from int) bool
+	walk = func(b *ssa.BasicBlock, from int) bool {
+		for i := from; i < len(b.Instrs); i++ {
+			switch x := b.Instrs[i].(type) {
+			case *ssa.Store:
+				if isFieldAddr(x.Addr) {
+					return true
+				}
+			case *ssa.Return:
+				return x != okRet
+			}
+		}
+		for _, s := range b.Succs {
+			if edgeEstablishes(b, s) || visited[s] {
+				continue
+			}
+			visited[s] = true
+			if !walk(s, 0) {
+				return false
+			}
+		}
+		return true
+	}
+	return walk(fill.Block(), instrIndex(fill)+1)
 }
 
 func structTypeShort(t types.Type) string {
